@@ -82,6 +82,10 @@ pub(super) fn poll_connect(
     }
 
     // First poll: auto-bind if needed, build the TCB, emit SYN.
+    // `getpeername` keeps the address as the caller wrote it; the TCB and
+    // the 4-tuple index use what packets carry (address + port only).
+    let named_peer = peer;
+    let peer = crate::kernel::wire_addr(peer);
     if !is_bound {
         auto_bind(k, fd, domain, peer.ip())?;
     }
@@ -106,7 +110,7 @@ pub(super) fn poll_connect(
             egress_since_ack: 0,
             retx_attempts: 0,
         });
-        st.peer = Some(Addr::Inet(peer));
+        st.peer = Some(Addr::Inet(named_peer));
     }
     k.sockets.insert_connection(src, peer, fd);
     emit(
